@@ -199,6 +199,10 @@ func serializeAttrs(pc *PrintCtx, kvps Attrs) (err error) { //nolint:revive
 		// inside a text-format record a group prints nothing itself: its
 		// members follow under dotted keys, each with its own separator.
 		_, isGroup := v.(groupedValue)
+		if !isGroup {
+			// NewAttr(key, Attrs{...}) or a "key", Attrs{...} pair carries a group as well
+			_, isGroup = v.Value().(Attrs)
+		}
 		isGroup = (isGroup || inGroupedMode) && !pc.jsonMode && pc.valueStringer == nil
 
 		if isGroup {
